@@ -12,21 +12,6 @@ import (
 // Check can be used to validate the relationships between the types.
 type Schema struct {
 	Types []Type
-
-	// Rels stores the relationships found in the schema's types. For
-	// two-way relationships, only one is chosen to be part of this
-	// map. The chosen one is the one that comes first when sorting
-	// both relationships in alphabetical order using the type name
-	// first and then the relationship name.
-	//
-	// For example, a type called Directory has a Parent relationship
-	// and a Children relationship. Both relationships have the same
-	// type (Directory), so now the name is used for sorting. Children
-	// comes before Parent, so the relationship Children from type
-	// Directory is stored here. The other one is not stored to avoid
-	// duplication (the information is already accessible through the
-	// inverse relationship).
-	rels map[string]Rel
 }
 
 // AddType adds a type to the schema.
@@ -138,10 +123,10 @@ func (s *Schema) AddTwoWayRel(rel Rel) error {
 // relationships (two types where each has a relationship pointing to the other
 // type), only one of the two relationships will appear in the list.
 func (s *Schema) Rels() []Rel {
-	s.buildRels()
+	set := s.buildRels()
 
-	rels := make([]Rel, 0, len(s.rels))
-	for _, rel := range s.rels {
+	rels := make([]Rel, 0, len(set))
+	for _, rel := range set {
 		rels = append(rels, rel)
 	}
 
@@ -242,15 +227,31 @@ func (s *Schema) Check() []error {
 	return errs
 }
 
-// buildRels builds the set of normalized relationships that is returned by
-// Schema.Rels.
-func (s *Schema) buildRels() {
-	s.rels = map[string]Rel{}
+// buildRels builds and returns the set of normalized relationships that is
+// returned by Schema.Rels.
+//
+// For two-way relationships, only one is chosen to be part of the set. The
+// chosen one is the one that comes first when sorting both relationships in
+// alphabetical order using the type name first and then the relationship name.
+//
+// For example, a type called Directory has a Parent relationship and a
+// Children relationship. Both relationships have the same type (Directory), so
+// now the name is used for sorting. Children comes before Parent, so the
+// relationship Children from type Directory is kept. The other one is not kept
+// to avoid duplication (the information is already accessible through the
+// inverse relationship).
+//
+// The set is built from scratch and nothing is stored in the schema, so the
+// schema can be queried concurrently.
+func (s *Schema) buildRels() map[string]Rel {
+	rels := map[string]Rel{}
 
 	for _, typ := range s.Types {
 		for _, rel := range typ.Rels {
 			relName := rel.String()
-			s.rels[relName] = rel.Normalize()
+			rels[relName] = rel.Normalize()
 		}
 	}
+
+	return rels
 }
